@@ -41,12 +41,28 @@ Proof.
   apply nth_tabulate. exact Hj.
 Qed.
 
-(* the vector v = u / ||u|| of householder_matrix_tensor *)
-Definition householder_v (x : list R) : list R :=
+(* the vectors u = x + a e and v = u / ||u|| of householder_matrix_tensor *)
+Definition householder_u (x : list R) : list R :=
   let length := euclidean_length ops x in
   let a := if nltb ops rO (hd rO x) then length else nneg ops length in
-  let u := match x with [] => [] | x0 :: r => nadd ops x0 a :: r end in
+  match x with [] => [] | x0 :: r => nadd ops x0 a :: r end.
+Definition householder_v (x : list R) : list R :=
+  let u := householder_u x in
   let length := euclidean_length ops u in map (fun element => ndiv ops element length) u.
+
+Lemma length_householder_u x : length (householder_u x) = length x.
+Proof. destruct x; reflexivity. Qed.
+Lemma length_householder_v x : length (householder_v x) = length x.
+Proof. unfold householder_v. rewrite map_length. apply length_householder_u. Qed.
+
+Lemma nth_column (b : mat) j t : t < length b -> nth t (column ops b j) rO = mget ops b t j.
+Proof.
+  intros Ht. unfold column, mget.
+  rewrite (nth_indep _ rO ((fun row => nth j row rO) [])) by (rewrite map_length; exact Ht).
+  apply (map_nth (fun row => nth j row rO)).
+Qed.
+Lemma length_column (b : mat) j : length (column ops b j) = length b.
+Proof. apply map_length. Qed.
 
 Lemma householder_eq (x : list R) :
   householder ops x =
@@ -57,6 +73,22 @@ Proof. reflexivity. Qed.
 
 Lemma wf2_householder (x : list R) : wf2 (length x) (length x) (householder ops x).
 Proof. rewrite householder_eq. apply wf2_tab2. Qed.
+
+Lemma mget_householder (x : list R) i j : i < length x -> j < length x ->
+  mget ops (householder ops x) i j =
+    nsub ops (if Nat.eqb i j then none_ ops else rO)
+             (nmul ops (nmul ops (nth i (householder_v x) rO) (nth j (householder_v x) rO)) (two ops)).
+Proof. intros Hi Hj. rewrite householder_eq. apply mget_tab2; assumption. Qed.
+
+Lemma mget_pad_h h c rows i j : i < rows -> j < rows ->
+  mget ops (pad_h ops h c rows) i j =
+    if Nat.leb c i && Nat.leb c j then mget ops h (i - c) (j - c)
+    else if Nat.eqb i j then none_ ops else rO.
+Proof. intros Hi Hj. apply (mget_tab2 rows rows); assumption. Qed.
+
+Lemma mget_identity n i j : i < n -> j < n ->
+  mget ops (identity ops n) i j = if Nat.eqb i j then none_ ops else rO.
+Proof. intros Hi Hj. apply (mget_tab2 n n); assumption. Qed.
 
 Lemma wf2_pad_h h c rows : wf2 rows rows (pad_h ops h c rows).
 Proof. apply (wf2_tab2 rows rows). Qed.
@@ -111,8 +143,8 @@ Proof.
   destruct (qr_loop_wf rows cols Hrows (seq 0 (Nat.min (rows - 1) cols)) None m (conj Hl Hall))
     as [Hr Hq]; [discriminate|].
   split; [lia|]. split; [|exact Hr].
-  destruct (fst (qr_loop ops rows (seq 0 (Nat.min (rows - 1) cols)) None m)) as [q1|].
-  - apply Hq. reflexivity.
+  destruct (fst (qr_loop ops rows (seq 0 (Nat.min (rows - 1) cols)) None m)) as [q1|] eqn:Eq.
+  - apply Hq. exact Eq.
   - apply wf2_identity.
 Qed.
 
